@@ -41,11 +41,21 @@ def run(harnesses: List[str], repo: str = '/repo', jobs: int = 8, timeout: int =
         cmd += extra
     t0 = time.time()
     res = {h: HarnessResult(h) for h in harnesses}
+    import signal
+    proc = subprocess.Popen(cmd, cwd=repo, env=env, stdout=subprocess.PIPE, stderr=subprocess.PIPE, text=True, start_new_session=True)
     try:
-        p = subprocess.run(cmd, cwd=repo, env=env, capture_output=True, text=True, timeout=timeout)
-        out = p.stdout + '\n' + p.stderr
-    except subprocess.TimeoutExpired as e:
-        out = (e.stdout or b'').decode(errors='replace') if isinstance(e.stdout, bytes) else (e.stdout or '')
+        so, se = proc.communicate(timeout=timeout)
+        out = so + '\n' + se
+    except subprocess.TimeoutExpired:
+        # kill the whole process group: cargo-kani -> kani-driver -> cbmc would otherwise survive as orphans
+        try:
+            os.killpg(proc.pid, signal.SIGKILL)
+        except Exception:
+            pass
+        try:
+            proc.communicate(timeout=10)
+        except Exception:
+            pass
         for h in res.values():
             h.status = 'undecided'; h.reason = 'kani timed out after %ds' % timeout
         return res, time.time() - t0, ' '.join(cmd), None
